@@ -309,6 +309,9 @@ def fullTextGo : Nat → PTree → List Char
 
 def fullText (t : PTree) : List Char := fullTextGo (t.height + 1) t
 
+/-- `usize::saturating_add` -/
+def satAdd (a b : Nat) : Nat := if a + b < 18446744073709551616 then a + b else 18446744073709551615
+
 /-- `utils::binary_literal_width`: the number of digits of a value that is one binary literal -/
 def binaryLiteralWidth (value : PTree) : Option Nat :=
   match Ast.dropRightWhile isWhitespace ((fullText value).dropWhile isWhitespace) with
@@ -618,8 +621,8 @@ def indexSimpleValue (r : Rec) (n : PTree) : IxM (Option Ty) := do
     let mut width := 0
     for value in Ast.valueListValues valueList do
       match ← r.value value with
-      | some (.bits elementWidth) => width := width + elementWidth
-      | _ => width := width + (binaryLiteralWidth value).getD 1
+      | some (.bits elementWidth) => width := satAdd width elementWidth
+      | _ => width := satAdd width ((binaryLiteralWidth value).getD 1)
     return some (.bits width)
   | .List =>
     let some valueList := Ast.listValueList n | return none
